@@ -174,6 +174,7 @@ func runFuzz(e *env, r *vlib.Rand, n int, avoid map[string]bool) {
 			e.b.Sample(map[string]any{"kind": "fuzz", "class": fm.Class, "tag": fm.Tag, "message": clip(string(fm.Msg), 160)})
 		}
 	}
+	c.stop()
 	c.mu.Lock()
 	e.b.Count("replies_total", int64(c.nAll))
 	c.closed = true
